@@ -2,6 +2,7 @@ import Driver.Proto
 import Driver.GenDispatch
 import Driver.GenDispatchP
 import Driver.Hand
+import Driver.NttG
 
 open Driver
 
@@ -29,6 +30,9 @@ def handle (line : String) : String :=
         | some s => s
         | none =>
         match handDispatch fn args with
+        | some s => s
+        | none =>
+        match c03g fn args with              -- NTT / INTT / extendPol histories on the model GENERATED from ntt_goldilocks.cpp
         | some s => s
         | none => "err unknown-op"
 
